@@ -1,5 +1,6 @@
 import TypVerif.Drv.Proto
 import TypVerif.Drv.C13
+import TypVerif.Drv.ObjLin
 import TypVerif.Drv.C09
 import TypVerif.Drv.C17
 import TypVerif.Drv.C18
@@ -27,6 +28,7 @@ open TypVerif.Proto
 
 def judges : List (String × Judge) := [
   ("C13", TypVerif.Drv.C13.judge),
+  ("ObjLin", TypVerif.Drv.ObjLin.judge),
   ("C09", TypVerif.Drv.C09.judge),
   ("C17", TypVerif.Drv.C17.judge),
   ("C18", TypVerif.Drv.C18.judge),
